@@ -1,6 +1,7 @@
 import SJ.Drv.C18
 import SJ.Drv.C01
 import SJ.Drv.C06
+import SJ.Drv.C06Via
 import SJ.Drv.C10
 import SJ.Drv.C12
 import SJ.Drv.C13
@@ -15,6 +16,7 @@ import SJ.Drv.C16
 import SJ.Drv.C04
 import SJ.Drv.Typed
 import SJ.Drv.C07
+import SJ.Drv.StreamRaw
 /-!
 `sjdriver` — reads case lines `op args… => impl-observation` on stdin, runs the Lean model and the
 executable specification on each, prints
@@ -28,6 +30,7 @@ def allHandlers : List (String × Handler) :=
   List.flatten [
     C18.handlers,
     C01.handlers,
+    C06Via.handlers,
     C06.handlers,
     C10.handlers,
     C12.handlers,
@@ -43,6 +46,7 @@ def allHandlers : List (String × Handler) :=
     C04.handlers,
     Typed.handlers,
     C07.handlers,
+    StreamRaw.handlers,
   ]
 
 def findHandler (op : String) : Option Handler := (allHandlers.find? (·.1 == op)).map (·.2)
